@@ -11,6 +11,10 @@ TRUSTED = [
 ]
 
 
+NAMES = {"info": ["composeinfo.json"], "images": ["images.json", "image-manifest.json"],
+         "rpms": ["rpms.json", "rpm-manifest.json"], "modules": ["modules.json"]}
+
+
 def run(chk):
     chk.build(["Props/C20.vo"])
     cases = S.enumerate_cases(full=(chk.tier == "thorough"))
@@ -49,11 +53,18 @@ def run(chk):
             want = root + "/compose"
             if norm(cp) != want:
                 chk.violation("compose/ holds composeinfo.json but compose_path is %r" % cp, c, "dir_layout")
+        elif list(lay) == ["compose"] and S.PATTERNS[lay["compose"]] and norm(cp) != root + "/compose":
+            chk.violation("only the compose/ layout is populated but compose_path is %r" % cp, c, "dir_layout")
         elif list(lay) == ["direct"] and norm(cp) != root:
             chk.violation("only the direct layout is populated but compose_path is %r" % cp, c, "dir_layout")
         elif list(lay) == ["legacy"] and norm(cp) != root + "/1.0":
             chk.violation("only the legacy layout is populated but compose_path is %r" % cp, c, "dir_layout")
         for acc, a, ma in zip(["info", "images", "rpms", "modules"], got[1:], m[1:]):
+            if len(lay) == 1 and a[0] != "ok":
+                pat = S.PATTERNS[list(lay.values())[0]]
+                good = [fn for fn, key in pat.items() if key.rstrip("2") == acc and fn in NAMES[acc]]
+                if good:
+                    chk.violation("%s is stored as %s in the only populated layout but the accessor raised %s" % (acc, good[0], a[1]), c, "dir_layout")
             if a[0] == "ok":
                 if not a[1]:
                     chk.violation("%s was loaded twice (second access returned another object)" % acc, c, "dir_layout")
